@@ -119,6 +119,8 @@ def main(pid, tier='quick', seed=None, replay=None):
     coverage = {}
     verdicts = []
     obs = []
+    extra = {}
+    goal_items = {}
     if import_error is not None:
         path = lib.write_replay(pid, seed, 'import', {'kind': 'import dit failed', 'log': import_error[-4000:]})
         violation(pid, path)
@@ -135,10 +137,28 @@ def main(pid, tier='quick', seed=None, replay=None):
                 continue
             terms.append(mod.to_coq(c, o))
             idx.append(i)
+            if isinstance(terms[-1], dict):
+                goal_items[i] = terms[-1]
         try:
-            vs = lib.run_coq_cases(pid, workdir, mod.COQ_IMPORTS, mod.VERDICT, terms,
-                                   shard=getattr(mod, 'SHARD', 200),
-                                   preamble=getattr(mod, 'PREAMBLE', ''))
+            if getattr(mod, 'MODE', 'eval') == 'goals':
+                vs = []
+                gres = lib.run_coq_goals(pid, workdir, mod.COQ_IMPORTS, terms, shard=getattr(mod, 'SHARD', 40),
+                                         preamble=getattr(mod, 'PREAMBLE', ''))
+                for item, r in zip(terms, gres):
+                    extra['goals'] = extra.get('goals', 0) + len(r)
+                    extra['goals_inconclusive'] = extra.get('goals_inconclusive', 0) + sum(1 for x in r if x == 'INCONCLUSIVE')
+                    if item.get('pyviolation'):
+                        vs.append((90, 90))
+                    elif 'FAIL' in r:
+                        k = r.index('FAIL')
+                        vs.append((k + 1, k + 1))
+                    else:
+                        vs.append((0, 0))
+                    item['verdicts'] = r
+            else:
+                vs = lib.run_coq_cases(pid, workdir, mod.COQ_IMPORTS, mod.VERDICT, terms,
+                                       shard=getattr(mod, 'SHARD', 200),
+                                       preamble=getattr(mod, 'PREAMBLE', ''))
         except RuntimeError as e:
             path = lib.write_replay(pid, seed, 'coqc', {'kind': 'model-evaluation-failed', 'log': str(e)[-6000:]})
             violation(pid, path, 'no-failing-input-found')
@@ -177,6 +197,10 @@ def main(pid, tier='quick', seed=None, replay=None):
                 corr, prop = v
                 payload = {'case': c, 'observation': o, 'corr_code': corr, 'prop_code': prop,
                            'meaning': getattr(mod, 'CODES', {})}
+                if i in goal_items:
+                    payload['goal_labels'] = goal_items[i].get('labels')
+                    payload['goal_verdicts'] = goal_items[i].get('verdicts')
+                    payload['pyviolation'] = goal_items[i].get('pyviolation')
                 if prop != 0:
                     payload['kind'] = 'property predicate false on dit output'
                     path = lib.write_replay(pid, seed, i, payload)
@@ -244,6 +268,7 @@ def main(pid, tier='quick', seed=None, replay=None):
         'correspondence_disagreements': sum(1 for v in verdicts if v is not None and v[0] != 0),
         'property_predicate_failures': sum(1 for v in verdicts if v is not None and v[1] != 0),
     }
+    coverage.update(extra)
     lib.write_evidence(pid, tier, seed, coverage, assumptions, time.time() - t0, nviol)
     print('%s %s: %d cases, %d violations, %d theorems (%s), %.1fs' % (
         pid, tier, len(cases), nviol, nob, 'ok' if props['ok'] else 'FAILED', time.time() - t0))
